@@ -269,6 +269,18 @@ pub fn run(ctx: &Ctx, model: &mut Model, rep: &mut Report) {
         }
         let lib: Vec<(String, String)> = v["library"].as_array().unwrap().iter().map(|p| (p[0].as_str().unwrap().to_string(), p[1].as_str().unwrap().to_string())).collect();
         rep.evaluations += 1;
+        if v["kind"] == "search_panics" {
+            let st: HashMap<String, String> = lib.iter().cloned().collect();
+            if let Ok(db) = dump::catch(|| Database::new(st.clone(), true, MarkdownOptions::default())) {
+                for q in ["", "alpha", "a 1"] {
+                    if let Err(e) = dump::catch(|| db.global_search(q)) {
+                        rep.fail(json!({"kind": "search_panics", "library": lib, "what": format!("global_search({:?}) panics: {}", q, e.chars().take(200).collect::<String>())}));
+                        break;
+                    }
+                }
+            }
+            return;
+        }
         if let Some(what) = crate::act::with_via(crate::act::via_from(&v["via"]), || check_library(&lib)) {
             rep.fail(json!({"kind": "paths", "library": lib, "via": v["via"], "what": what}));
         }
